@@ -16,7 +16,7 @@ T = {
          'trusted: reference model harness/src/model.rs; bounds as C01; builds with debug assertions and overflow checks',
          'model-based stateful property testing (proptest histories vs reference model), shrunk to a JSON replay'),
  'C03': ('gcmodel', 'exploration',
-         'Generated histories; after every call every present vertex is queried (kids, kid per bound label and probe labels, data marker) and every data() result is compared with the reference model. Exploration only. Plus bounded-exhaustive dimension sweeps (capacity, id, alpha index, byte values, datum length, group shape, edge count, label character) on a fixed scenario under the same oracle.',
+         'Generated histories; after every call every present vertex is queried (kids, kid per bound label and probe labels, data marker) and every data() result is compared with the reference model. Exploration only. Plus bounded-exhaustive dimension sweeps (capacity, id, alpha index, byte values, datum length, group shape, edge count, label character) on a fixed scenario under the same oracle. One case in four and every sweep scenario also run quietly (nothing asked between the history\'s own queries).',
          'trusted: reference model; labels from a fixed pool of all three variants, built directly and through from_str; data lengths 0..40',
          'model-based stateful property testing, per-call full-observation oracle'),
  'C04': ('gcmodel', 'exploration',
@@ -24,7 +24,7 @@ T = {
          'trusted: reference model for the absent/present judgement; the metamorphic part compares the implementation with itself',
          'stateful property testing with a metamorphic oracle (delete the re-add) plus reference model'),
  'C05': ('gcmodel', 'exploration',
-         'Generated allocator-heavy histories (next_id, explicit adds around the allocator, collections, clone, merge, script variables); freshness invariant over the history. Exploration only. Plus bounded-exhaustive dimension sweeps (capacity, id, alpha index, byte values, datum length, group shape, edge count, label character) on a fixed scenario under the same oracle.',
+         'Generated allocator-heavy histories (next_id, explicit adds around the allocator, collections, clone, merge, script variables); freshness invariant over the history. Exploration only. Plus bounded-exhaustive dimension sweeps (capacity, id, alpha index, byte values, datum length, group shape, edge count, label character) on a fixed scenario under the same oracle. Plus one script of 80 000 / 160 000 distinct variables per worker (every name must get an id of its own).',
          'trusted: history bookkeeping; next_id generated only inside its documented domain (an absent id at or above the allocator position remains)',
          'stateful property testing; oracle = invariant over the history of returned ids'),
  'C06': ('cycles', 'exploration',
@@ -36,7 +36,7 @@ T = {
          'trusted: the sanitizers; ASan cannot see uninitialised reads (MSan stage in thorough only) nor out-of-bounds accesses that land inside another live allocation; claimed for builds with debug assertions',
          'property-based sequence generation + coverage-guided fuzzing (cargo-fuzz/libFuzzer) under ASan/MSan with the panic-contract oracle in the target'),
  'C08': ('twin', 'exploration',
-         'Differential twin runs: g built by a generated history, g2 = load(save(g)) through a real file; complete observations must agree and a generated continuation plus drain epilogue on both must produce identical traces (results, collections, all query outputs). Exploration only. Plus bounded-exhaustive dimension sweeps (capacity, id, alpha index, byte values, datum length, group shape, edge count, label character) on a fixed scenario under the same oracle.',
+         'Differential twin runs: g built by a generated history, g2 = load(save(g)) through a real file; complete observations must agree and a generated continuation plus drain epilogue on both must produce identical traces (results, collections, all query outputs). Exploration only. Plus bounded-exhaustive dimension sweeps (capacity, id, alpha index, byte values, datum length, group shape, edge count, label character) on a fixed scenario under the same oracle. Save paths hold older, longer checkpoints; checkpoints and slices through dangling edges in the histories.',
          'trusted: the interpreter; the comparison is implementation vs implementation; allocator-dependent calls are generated only when the one permitted difference (allocator restart) cannot show',
          'differential (round-trip twin) stateful property testing with proptest-generated histories and continuations'),
  'C09': ('prefixes', 'fault_enumeration',
@@ -60,7 +60,7 @@ T = {
          'trusted: reference model edges, BFS in harness/src/props/digraph.rs; <=14 reachable vertices as the property requires',
          'property-based testing over generated digraphs; oracle = independent reachability computation'),
  'C14': ('scriptgen', 'exploration',
-         'Differential twin: deploy_to(text) vs the direct API calls for generated programs (literal ids and $variables with names up to 14 characters, on empty graphs and on graphs with a generated history incl. dangling edges) under generated legal formatting; single-fault corruptions are classified by an independent strict parser (well-formed / malformed at command k / unspecified) and judged accordingly (Err without panic, prefix applied). Plus bounded-exhaustive dimension sweeps (capacity, id, alpha index, byte values, datum length, group shape, edge count, label character) on a fixed scenario under the same oracle.',
+         'Differential twin: deploy_to(text) vs the direct API calls for generated programs (literal ids and $variables with names up to 14 characters, on empty graphs and on graphs with a generated history incl. dangling edges) under generated legal formatting; single-fault corruptions are classified by an independent strict parser (well-formed / malformed at command k / unspecified) and judged accordingly (Err without panic, prefix applied). Plus bounded-exhaustive dimension sweeps (capacity, id, alpha index, byte values, datum length, group shape, edge count, label character) on a fixed scenario under the same oracle. Plus one script of 80 000 / 160 000 distinct variables per worker against add(next_id()) per variable.',
          'trusted: the strict parser of the documented grammar (harness/src/props/script.rs); unspecified syntax is skipped and counted',
          'grammar-based generation + differential twin (script vs calls) + fault injection classified by an independent parser'),
  'C15': ('hexenum', 'exploration',
